@@ -445,7 +445,13 @@ pub fn run(sc: &Value) -> Vec<String> {
     };
     let mut out = Vec::new();
     for (port, url_host, tlsver) in variants {
-        out.push(run_one(sc, p, port, url_host, tlsver));
+        // (not a timing family: a handshake that ran into its own 3 s socket timeout on an overloaded machine is repeated once)
+        let mut ev = run_one(sc, p, port, url_host, tlsver);
+        if ev.contains("\"res\":\"err\"") && (ev.contains("Io:TimedOut") || ev.contains("Io:WouldBlock")) {
+            std::thread::sleep(Duration::from_millis(300));
+            ev = run_one(sc, p, port, url_host, tlsver);
+        }
+        out.push(ev);
     }
     out
 }
